@@ -314,6 +314,14 @@ def kwargs_replay(ctx):
                     ctx.violation(f'C18|kwargs|{art}|{rname}|{key}|{who.split()[0]}', f'{rname} artist: {key} is {got!r}, expected the {who} {exp!r}',
                                   {'artist': art, 'region': rname, 'style': style, 'visual': vis, 'caller': caller})
                     break
+            if art == 'Line2D':
+                # the colour the marker is drawn in (Artist!MarkerColour): the marker edge colour if one is in force, else the line colour
+                src = want.get('markeredgecolor', want.get('color', 'auto'))
+                exp = {'C': Cv['color'], 'V': V['color'], 'ds9green': '#00ff00'}.get(src)
+                if exp is not None and to_rgba(a.get_markeredgecolor()) != to_rgba(exp):
+                    ctx.violation(f'C18|kwargs|Line2D|{rname}|marker-colour|{src}', f'{rname} artist: the marker is drawn in {a.get_markeredgecolor()!r}, expected '
+                                  f"{'the caller keyword' if src == 'C' else 'the stored / default colour'} {exp!r}",
+                                  {'artist': art, 'region': rname, 'style': style, 'visual': vis, 'caller': caller})
         n += 1
     ctx.traces += n
     ctx.note('kwargs_states_replayed', n)
